@@ -77,11 +77,19 @@ pub assume_specification<T> [<[T]>::to_vec] (s: &[T]) -> (r: Vec<T>) where T: co
 pub assume_specification<T> [<[T]>::fill] (s: &mut [T], v: T) where T: core::clone::Clone
     ensures final(s)@.len() == old(s)@.len(),
         forall|i: int| 0 <= i < old(s)@.len() ==> final(s)@[i] == v;
-
+// std: "Copies the elements from src into self. The length of src must be the same as self. Panics if the two slices have different lengths."
+pub assume_specification<T> [<[T]>::clone_from_slice] (dst: &mut [T], src: &[T]) where T: core::clone::Clone
+    requires old(dst)@.len() == src@.len(),
+    ensures final(dst)@.len() == old(dst)@.len(),
+        forall|i: int| 0 <= i < src@.len() ==> cloned::<T>(src@[i], #[trigger] final(dst)@[i]);
 // ---- stun-rs/src/error.rs : diagnostics text and boxed causes are opaque; the error *type* is kept
 pub struct FmtString;
 #[verifier::external_body]
 pub fn vx_fmt() -> FmtString { unimplemented!() }
+// R8: every explicit panic of the real code (assert!, debug_assert!, unreachable!, panic!, expect-style) becomes a call
+// to this function: it can never be called, so a reachable panic is a failed precondition
+#[verifier::external_body]
+pub fn vx_panic() -> ! requires false { unimplemented!() }
 
 //@item! stun_rs :: mod error > enum StunErrorType
 pub struct StunError { pub error_type: StunErrorType, pub info: StunErrorInfo }
